@@ -39,6 +39,8 @@ var (
 	// Log of what happened natively, printed by the replay test.
 	Reached  = map[string]int{}
 	Observed []string
+	// ModelValidated is set by native-only validation drivers: number of sequences compared.
+	ModelValidated int
 	// Trace is the sequence of assertion outcomes and witnesses of this run (translator validation).
 	Trace []string
 )
